@@ -2,7 +2,7 @@
 From Coq Require Import List NArith ZArith Bool Arith String.
 Import ListNotations.
 Require Import Scan Pos DQ SQ.
-Require Emit EmitSQ EmitDQ.
+Require Emit EmitSQ EmitDQ Plain EmitPlain AnalysisPlain.
 
 (* KIND C02_double_quoted_scalar_roundtrip : U *)
 (* for EVERY text t over printable ASCII (spaces, apostrophes included), the 15 single-letter escapes and \xHH code points,
@@ -64,6 +64,46 @@ Example C02_quoted_nonvacuous :
   (match Emit.write_double_quoted t false s0 with Emit.Ok (_, s') => EmitSQ.otext s' = [34; 105; 116; 39; 115; 32; 92; 34; 92; 92; 92; 116; 34]%N | _ => False end) /\
   (match Emit.write_single_quoted (firstn 7 t) false s0 with Emit.Ok (_, s') => EmitSQ.otext s' = [39; 105; 116; 39; 39; 115; 32; 34; 92; 39]%N | _ => False end).
 Proof. vm_compute. repeat split; reflexivity. Qed.
+
+(* KIND C02_plain_scalar_roundtrip : U *)
+(* the plain style (the dumper's first choice): EVERY one-line text made of words (no blank character, a colon never followed by a blank, no leading '#')
+   separated by runs of spaces, in block context at a column inside the current indentation, followed by the end of the input or by a line feed and the
+   end of the input: scan_plain returns a plain scalar token with exactly that text (Proofs/Plain.v) *)
+Theorem C02_plain_scalar_roundtrip : forall x t r s, Plain.plainok x t -> rest s = (t ++ x :: r)%list -> Plain.ender x r -> flow_level s = 0%Z ->
+  (indent s + 1 <= Z.of_nat (col s))%Z ->
+  exists tok s', scan_plain s = Ok (tok, s') /\ t_kind tok = TScalar t true SPlain /\ rest s' = Plain.after x r.
+Proof. exact Plain.plain_roundtrip. Qed.
+Eval vm_compute in "ASSUME:C02_plain_scalar_roundtrip"%string. Print Assumptions C02_plain_scalar_roundtrip.
+(* KIND C02_plain_emit_then_scan : U *)
+(* emitter model and scanner model TOGETHER for the plain style: for every such text and every emitter state standing after whitespace,
+   write_plain (no folding) writes the text itself, and the scanner reads it back as exactly that text *)
+Theorem C02_plain_emit_then_scan : forall x text r s, Plain.plainok x text -> Plain.ender x r -> Emit.whitespace s = true ->
+  exists s', Emit.write_plain text false s = Emit.Ok (tt, s') /\ EmitSQ.otext s' = (EmitSQ.otext s ++ text)%list /\
+    forall sc, rest sc = (text ++ x :: r)%list -> flow_level sc = 0%Z -> (indent sc + 1 <= Z.of_nat (col sc))%Z ->
+      exists tok sc', scan_plain sc = Ok (tok, sc') /\ t_kind tok = TScalar text true SPlain /\ rest sc' = Plain.after x r.
+Proof. exact EmitPlain.plain_emit_then_scan. Qed.
+Eval vm_compute in "ASSUME:C02_plain_emit_then_scan"%string. Print Assumptions C02_plain_emit_then_scan.
+(* KIND C02_analysed_plain_emit_then_scan : U *)
+(* three cooperating sites: EVERY non-empty text for which the emitter's analyze_scalar allows the plain style in block context (any allow_unicode
+   setting) is such a text of words and runs of spaces (Proofs/AnalysisPlain.v: an invariant of the analysis loop over every character); so what
+   the style choice lets write_plain write, scan_plain reads back *)
+Theorem C02_analysed_plain_emit_then_scan : forall au text x r s, text <> [] -> Emit.a_block_plain (Emit.analyze_scalar au text) = true -> Plain.ender x r ->
+  Emit.whitespace s = true ->
+  exists s', Emit.write_plain text false s = Emit.Ok (tt, s') /\ EmitSQ.otext s' = (EmitSQ.otext s ++ text)%list /\
+    forall sc, rest sc = (text ++ x :: r)%list -> flow_level sc = 0%Z -> (indent sc + 1 <= Z.of_nat (col sc))%Z ->
+      exists tok sc', scan_plain sc = Ok (tok, sc') /\ t_kind tok = TScalar text true SPlain /\ rest sc' = Plain.after x r.
+Proof. exact AnalysisPlain.analysed_plain_emit_then_scan. Qed.
+Eval vm_compute in "ASSUME:C02_analysed_plain_emit_then_scan"%string. Print Assumptions C02_analysed_plain_emit_then_scan.
+(* KIND C02_plain_nonvacuous : F *)
+(* a text with an inner colon, an inner hash and several spaces meets the hypotheses and is read back by the whole scanner model *)
+Example C02_plain_nonvacuous :
+  let t := [97; 58; 98; 32; 32; 99; 35; 100; 32; 45; 101]%N in
+  Plain.plainok LF t /\
+  (let s := {| rest := (t ++ [LF; NUL])%list; index := 0; line := 0; col := 0; sdone := false; flow_level := 0; tokens := []; taken := 0;
+               indent := (-1)%Z; indents := []; allow_sk := true; psk := [] |} in
+   match scan_plain s with Ok (tok, s') => t_kind tok = TScalar t true SPlain /\ rest s' = [NUL] | _ => False end).
+Proof. exact Plain.plain_example. Qed.
+
 
 (* PARTIAL (FULL: forall v opts, load (dump v opts) ~ v): only the double-quoted (the universal fallback style) and single-quoted scalar layers
    without folding is a theorem.  Value<->node, node<->event and the other four scalar styles are decided by the
